@@ -18,6 +18,7 @@ def main():
     only = set(sys.argv[1:])
     root = tempfile.mkdtemp(prefix="fv-benignquick-")
     alarms = n = 0
+    rows = []
     try:
         subprocess.run("git -C /repo archive HEAD | tar -x -C %s" % root, shell=True, check=True)
         subprocess.run("cd %s && git init -q . && git add -A >/dev/null && git -c user.email=a@b -c user.name=x commit -qm base" % root, shell=True, check=True)
@@ -32,6 +33,7 @@ def main():
                 res = list(ex.map(run, [(pid, root) for pid in PROPS]))
             subprocess.run("cd %s && git checkout -q -- . && git clean -fdq" % root, shell=True)
             bad = [(pid, keys) for pid, rc, keys in res if rc != 0]
+            rows.append((d, bad))
             if bad:
                 alarms += 1
                 print("ALARM", d, [(pid, k[:1]) for pid, k in bad])
@@ -40,6 +42,20 @@ def main():
     finally:
         shutil.rmtree(root, ignore_errors=True)
     print("benign_quick: %d refactors, %d raised an alarm" % (n, alarms))
+    if not only:
+        import json
+        lines = ["# Behaviour-preserving refactors and what the checks said", "",
+                 "Written by sub-agents that saw only the property text (tools/gen_benign_prompt.py; `r2` = second round, asked",
+                 "for different sites and kinds of refactor). Each is applied to a scratch copy of /repo's HEAD and all 20 quick",
+                 "checks are run (tools/benign_quick.py). Expected: silent.", "", "| refactor | what it does | result |", "|---|---|---|"]
+        for d, bad in rows:
+            try:
+                summ = str(json.load(open(os.path.join(V, "benign", d, "meta.json"))).get("summary", ""))[:140].replace("|", "/").replace("\n", " ")
+            except Exception:
+                summ = ""
+            lines.append("| %s | %s | %s |" % (d, summ, "silent" if not bad else "; ".join("%s: `%s`" % (p, (k[0] if k else "")[:70]) for p, k in bad)))
+        lines += ["", "%d refactors, %d raised an alarm." % (n, alarms)]
+        open(os.path.join(V, "benign", "RESULTS.md"), "w").write("\n".join(lines) + "\n")
     return 1 if alarms else 0
 
 
